@@ -63,6 +63,7 @@ impl JoinedTableData {
                 }
             }
 
+            let line = line.map_err(|err| ExecutionError::FailReadFile(format!("{}", err)));
             if let Ok(line) = line {
                 let result = execution_engine.execute(line.clone(), &config)?.result_row;
                 if let Some(result) = result {
@@ -74,7 +75,7 @@ impl JoinedTableData {
                     }
                 }
             } else {
-                break;
+                return line.map(|_| joined_table_data);
             }
         }
 
